@@ -37,9 +37,12 @@ import (
 
 	"github.com/mycoria/crop"
 	"github.com/mycoria/mycoria/m"
+	"github.com/mycoria/mycoria"
+	"github.com/mycoria/mycoria/config"
 	"github.com/mycoria/mycoria/storage"
 
 	"verif/core"
+	"verif/ids"
 )
 
 var c18Opts = core.Opts{ID: "C18", Quick: 300, Thorough: 12000}
@@ -66,6 +69,38 @@ var c18Tokens = []string{
 	"\\", "\"", "/", "u0026", "u003c", "u003e", "u2028", "u0000", "ud83d", "\\u0026", "\\u003c", "\\u003e", "\\\\u0026", "\\n", "\\\"",
 	"<", ">", "&", "&amp;", "%", "%s", "%v", "%!", "%%", "{", "}", "[", "]", ",", ":", "null", "true", "0", "-1e9", " ", "\t", "\n", "\r", "\b", "\f",
 	"\x7f", "\u2028", "\u2029", "\ufeff", "\ufffd", "é", "日", "😀", "a", "Z", "$", "`", "'", "#", "\\x", "\\/",
+}
+
+// c18Start is a start of the router on a state file. Either the storage alone
+// (constructor + module start), or the way the program does it: mycoria.New on
+// a relay-only configuration that names the state file, which loads the
+// storage and puts the state manager on top of it; the storage module is then
+// started as the module group would start it.
+func c18Start(path string, viaInstance bool) (*storage.JSONFileStorage, error) {
+	if !viaInstance {
+		return c18Open(path)
+	}
+	st := config.Store{}
+	st.Router.Address = ids.Get(0).Addr.Store()
+	st.Router.Connect = []string{"tcp://192.0.2.1:47369"}
+	st.System.DisableTun = true
+	st.System.StatePath = path
+	cfg, err := st.Parse()
+	if err != nil {
+		return nil, fmt.Errorf("harness configuration refused: %w", err)
+	}
+	inst, err := mycoria.New("verif", cfg)
+	if err != nil {
+		return nil, err
+	}
+	s, ok := inst.Storage().(*storage.JSONFileStorage)
+	if !ok {
+		return nil, fmt.Errorf("instance storage is a %T", inst.Storage())
+	}
+	if err := storage.Storage(s).Start(); err != nil {
+		return nil, fmt.Errorf("start of the storage module: %w", err)
+	}
+	return s, nil
 }
 
 func c18Str(c *core.Case, label string) string {
@@ -260,6 +295,10 @@ func TestC18RoundTrip(t *testing.T) {
 			maxR, maxM = 200, 200
 		}
 		sp := c18GenSpec(c, maxR, maxM)
+		via := c.Chance("start.via-instance", 1, 2)
+		if via {
+			c.Class("restart-through-the-instance-constructor")
+		}
 		s, err := c18Open(path)
 		if err != nil {
 			c.Fatalf("new storage: %v", err)
@@ -274,7 +313,7 @@ func TestC18RoundTrip(t *testing.T) {
 		if err := s.Stop(); err != nil {
 			c.Fatalf("Stop failed: %v", err)
 		}
-		re, err := c18Open(path)
+		re, err := c18Start(path, via)
 		if err != nil {
 			c.Fatalf("reload of a state written by Stop failed: %v", err)
 		}
@@ -289,7 +328,7 @@ func TestC18RoundTrip(t *testing.T) {
 		if err := re.Stop(); err != nil {
 			c.Fatalf("second Stop failed: %v", err)
 		}
-		re2, err := c18Open(path)
+		re2, err := c18Start(path, via)
 		if err != nil {
 			c.Fatalf("second reload failed: %v", err)
 		}
@@ -698,7 +737,11 @@ func TestC18Crash(t *testing.T) {
 		}
 		// Old state on disk.
 		oldSpec := c18GenSpec(c, maxR, maxR)
-		hasOld := c.Chance("has.old", 5, 6)
+		hasOld := c.Chance("has.old", 3, 4)
+		via := c.Chance("start.via-instance", 1, 2)
+		if via {
+			c.Class("restart-through-the-instance-constructor")
+		}
 		oldCanon := ""
 		if hasOld {
 			s, err := c18Open(path)
@@ -799,7 +842,8 @@ func TestC18Crash(t *testing.T) {
 			if err := c18Materialise(fs, stateDir, checkDir); err != nil {
 				c.Fatalf("materialise: %v", err)
 			}
-			s, err := c18Open(filepath.Join(checkDir, "state.json"))
+			// (the constructor of the whole instance is slow: every eighth state)
+			s, err := c18Start(filepath.Join(checkDir, "state.json"), via && states%8 == 0)
 			states++
 			if err != nil {
 				c.Fatalf("crash %s: the next start cannot load the state (%v); state file has %d bytes (old %d, new %d)", where, err, len(fs[path]), len(initial[path]), len(model[path]))
@@ -828,7 +872,7 @@ func TestC18Crash(t *testing.T) {
 				if err := s.Stop(); err != nil {
 					c.Fatalf("crash %s, next run: clean shutdown failed: %v", where, err)
 				}
-				s2, err := c18Open(filepath.Join(checkDir, "state.json"))
+				s2, err := c18Start(filepath.Join(checkDir, "state.json"), via)
 				if err != nil {
 					c.Fatalf("crash %s, then a run that shut down cleanly with a smaller state: the start after that cannot load the state (%v)", where, err)
 				}
